@@ -18,6 +18,7 @@ pub fn run(ctx: &Ctx, sink: &mut Sink) -> bool {
         "C02" => c02::run_c02(ctx, sink),
         "C03" => c02::run_c03(ctx, sink),
         "C04" => c04::run_prop(ctx, sink),
+        "C18" => c02::run_c18(ctx, sink),
         "C19" => c19::run_prop(ctx, sink),
         "C20" => c20::run_prop(ctx, sink),
         "C06" => c06::run_prop(ctx, sink),
